@@ -205,16 +205,30 @@ Theorem C10_extract_local : forall szs vals stranded es, szs = map len vals -> F
   model_extract szs vals stranded es = RRows (spec_extract vals stranded es).
 Proof. exact extract_local. Qed.
 Print Assumptions C10_extract_local.
-(* sequence under intervals: per-chromosome slice, reverse-complemented on '-' — except that the pinned strand
-   selection fails when there are as many intervals as bases (every interval of length 1) *)
-Theorem C10_seq_partial : forall vals stranded es,
+(* IN FORCE.  Sequence under intervals: per-chromosome slice, reverse-complemented on '-', for EVERY interval set — any
+   number of intervals, empty ones, every interval of length 1 (no size guard since the np.where repair
+   notes/C14.fix-2.final.diff: GenomicSequence.extract_intervals hands np.where an explicit row mask) *)
+Theorem C10_seq : forall vals stranded es, model_seq vals stranded es = RRows (spec_seq vals stranded es).
+Proof. exact seq_full. Qed.
+Print Assumptions C10_seq.
+Example C10_seq_nonvacuous :
+  model_seq [[65; 67; 71]] true [mk 0 0 1] = RRows [[65]]
+  /\ model_seq [[65; 67; 71]; [84; 84]] true
+       [ {| e_chr := 0; e_start := 1; e_stop := 2; e_fwd := false |}; mk 1 1 1;
+         {| e_chr := 1; e_start := 0; e_stop := 1; e_fwd := false |} ] = RRows [[71]; []; [65]]
+  /\ model_seq_pinned [[65; 67; 71]] true [mk 0 0 1] = RErr E_ATTR.
+Proof. vm_compute. repeat split; reflexivity. Qed.
+(* HISTORY — the code before that repair (column mask, npstructures broadcasts it only when mask.size < data.size): right
+   unless there are at least as many intervals as bases, e.g. every interval of length 1 (former finding
+   C10-seq-stranded-all-length-one) *)
+Theorem C10_seq_pinned_partial : forall vals stranded es,
   (stranded = false \/ len es < len (concat (map (fun e => slice (e_start e) (e_stop e) (nthd [] vals (e_chr e))) es))) ->
-  model_seq vals stranded es = RRows (spec_seq vals stranded es).
-Proof. exact seq_partial. Qed.
-Print Assumptions C10_seq_partial.
-Theorem C10_seq_refuted : exists vals es, model_seq vals true es <> RRows (spec_seq vals true es).
-Proof. exact seq_refuted. Qed.
-Print Assumptions C10_seq_refuted.
+  model_seq_pinned vals stranded es = RRows (spec_seq vals stranded es).
+Proof. exact seq_pinned_partial. Qed.
+Print Assumptions C10_seq_pinned_partial.
+Theorem C10_seq_pinned_refuted : exists vals es, model_seq_pinned vals true es <> RRows (spec_seq vals true es).
+Proof. exact seq_pinned_refuted. Qed.
+Print Assumptions C10_seq_pinned_refuted.
 
 (* get_location *)
 Theorem C10_location_pinned_partial : forall st w e, 0 <= w <= 2 -> (st = true \/ w <> 1) ->
@@ -247,8 +261,6 @@ Print Assumptions C10_strandedness_lost_refuted.
 Theorem C10_prog_spec : forall szs vals st es ps k r, nonneg szs ->
   (extend_keeps_strand = true \/ st = false \/ no_extend ps) ->
   (k = CExtract -> szs = map len vals) ->
-  (k = CSeq -> forall rows, spec_steps szs st es ps = Some rows ->
-     st = false \/ len rows < len (concat (map (fun e => slice (e_start e) (e_stop e) (nthd [] vals (e_chr e))) rows))) ->
   spec_prog szs vals st es ps k = Some r -> model_prog szs vals st es ps k = r.
 Proof. exact prog_spec. Qed.
 Print Assumptions C10_prog_spec.
@@ -265,7 +277,7 @@ Proof. vm_compute. split; reflexivity. Qed.
    Geometry only on included chromosomes, and per operation: merged on a (chromosome,start)-sorted table with d >= 0;
    GenomicIntervalsFull.clip on intervals reaching their chromosome's range; get_location where in {start,stop,center};
    windows around locations on their chromosome; array values as long as the chromosomes; sequence extraction on good
-   tables outside the all-length-1 stranded class; programs without a flag-dropping extended_to_size — the implementation agreeing with the model implies that the
+   tables (since round 6 with NO size guard: also all-length-1 stranded sets); programs without a flag-dropping extended_to_size — the implementation agreeing with the model implies that the
    property holds on that case.  Tables that reach outside a chromosome are covered: the model refuses them. *)
 Theorem C10_model_ok_spec_ok : forall c, case_wf c -> model_ok c = true -> spec_ok c = true.
 Proof. exact model_ok_spec_ok. Qed.
